@@ -324,7 +324,13 @@ class DecorGen:
             t += ["sub", "vcl_" + scope, "{", ann("#FASTLY " + scope)]
             body = self.block(scope, depth, r.choice([1, 2, 3, 4]))
             if inject and r.random() < 0.6:
-                body = self.injected(scope) + body if r.random() < 0.5 else body + self.injected(scope)
+                bad = self.injected(scope)
+                if bad[0] not in ("return", "restart", "error") and r.random() < 0.5:
+                    # the same finding twice (same rule, same message): on two lines in the program, on one line
+                    # in the joined variants
+                    self._c("inject:same-finding-twice")
+                    bad = bad + bad if r.random() < 0.7 else bad + ["set", "req.http.Mid", "=", '"m"', ";"] + bad
+                body = bad + body if r.random() < 0.5 else body + bad
             t += body
             if scope == "recv" and typed:
                 t += ["declare", "local", "var.tr", "RTIME", ";", "set", "var.tr", "=", "table.lookup_rtime", "(", "tr", ",",
@@ -450,6 +456,12 @@ def decorate(tokens, rng, style):
             g = " " + " ".join(rng.choice(ORDINARY) for _ in range(rng.randint(2, 5))) + " "
         elif style == "huge":
             g = b
+        elif style == "join-split":
+            # whole runs of statements joined on one line, other statements split over many lines
+            if i % 40 < 25:
+                g = " "
+            else:
+                g = "\n" + " " * rng.randint(0, 4)
         elif style == "one-line":
             g = " "
         elif style == "tabs":
@@ -513,4 +525,4 @@ def variant(tokens, rng, style):
 STYLES = ["block-everywhere", "line-everywhere", "newline-everywhere", "one-line", "tabs",
           "sparse", "sparse", "sparse", "dense", "dense", "dense", "mixed", "mixed", "mixed", "mixed",
           "focus", "focus", "focus", "focus", "focus", "focus",
-          "multi-block", "multi-block", "huge", "huge", "crlf", "crlf", "crlf-base"]
+          "multi-block", "multi-block", "huge", "huge", "crlf", "crlf", "crlf-base", "join-split", "join-split"]
